@@ -16,3 +16,4 @@ def run(ck):
     gradient.r11_walker_segment_test_siblings(ck, P)
     gradient.r12_step_matches_component(ck, P)
     opacity.r2_opacity_flags(ck, P)       # C09-R2: a radial gradient is opaque only when every pixel has an admissible t (a < 0)
+    gradient.r13_homogeneous_degrees(ck, P)
